@@ -183,7 +183,25 @@ func runC16(c *Ctx) {
 			limit := rf.EdgesWhere(func(cond ast.Expr) (bool, bool) {
 				cm, ok := asCmp(cond, true)
 				if ok && cm.Op == token.GEQ {
-					if o := objOf(rf.Info, cm.R); o != nil && o.Name() == "maxInFlight" {
+					// the limit: a value loaded from the maxInFlight field (directly or through a single-definition local)
+					r := ast.Unparen(cm.R)
+					if id, ok := r.(*ast.Ident); ok {
+						if def := singleLocalDefIn(rf.Info, reg.Decl.Body, rf.Info.ObjectOf(id)); def != nil {
+							r = ast.Unparen(def)
+						}
+					}
+					if containsNode(r, func(n ast.Node) bool {
+						call, ok := n.(*ast.CallExpr)
+						if !ok {
+							return false
+						}
+						sel, ok := ast.Unparen(call.Fun).(*ast.SelectorExpr)
+						if !ok || sel.Sel.Name != "Load" {
+							return false
+						}
+						fv := selField(rf.Info, sel.X)
+						return fv != nil && fv.Name() == "maxInFlight"
+					}) {
 						return true, true
 					}
 				}
@@ -212,7 +230,14 @@ func runC16(c *Ctx) {
 			cm, ok := asCmp(cond, true)
 			if ok && cm.Op == token.EQL {
 				if v, isC := constInt(df.Info, cm.R); isC && v == 0 {
-					if o := objOf(df.Info, cm.L); o != nil && o.Name() == "remaining" {
+					// the count left after this request's own decrement of blockingCount
+					l := ast.Unparen(cm.L)
+					if id, ok := l.(*ast.Ident); ok {
+						if def := singleLocalDefIn(df.Info, dereg.Decl.Body, df.Info.ObjectOf(id)); def != nil {
+							l = ast.Unparen(def)
+						}
+					}
+					if call, ok := l.(*ast.CallExpr); ok && df.CallOnField(c.Field("actor", "reentrancyState", "blockingCount"), "Dec")(call) {
 						return true, true
 					}
 				}
